@@ -1,9 +1,5 @@
-"""C01 / C03 (and the reader-side half of C05): RtpsReader.tla + ReaderAbs.tla + Trace_RtpsReader.tla,
-`reader` driver."""
-import glob, json, os, time
-from common import *
-
-CLAUSE_PREFIX = {"C01": ("C01_",), "C03": ("C03_",)}
+"""C01 / C03: RtpsReader.tla + ReaderAbs.tla + Trace_RtpsReader.tla, `reader` driver."""
+from pipeline import run_pipeline
 
 TIERS = {
     "quick": dict(mc=[("MC_RtpsReader_q_rel.cfg", 8), ("MC_RtpsReader_q_be.cfg", 8)], replay_limit=6000,
@@ -11,91 +7,15 @@ TIERS = {
     "thorough": dict(mc=[("MC_RtpsReader_t_rel.cfg", 12), ("MC_RtpsReader_t_be.cfg", 12), ("MC_RtpsReader_t_two.cfg", 12)],
                      replay_limit=150000, random=dict(runs=3000, events=400)),
 }
+ASSUME = [
+    "state space bounded by the constants in spec/MC_RtpsReader_*.cfg (see model_checking[].cfg)",
+    "the reader's own limits are not exceeded in the driver (KeepAll, max_samples 1e6)",
+    "reception timestamps of the real TopicCache are strictly increasing (wall clock)",
+    "the independent wire codec harness/src/wire.rs encodes/decodes RTPS submessages per RTPS 2.5 section 9.4.5",
+]
 
 
 def run(pid, tier, seed, replay=None):
-    t0 = time.time()
-    d = clean_dir(outdir(pid, "work"))
-    build_harness()
-    cfg = TIERS[tier]
-    states = transitions = 0
-    mc_detail = []
-    all_out = []
-    if replay is None:
-        for c, workers in cfg["mc"]:
-            out, info = tlc("RtpsReader.tla", c, os.path.join(d, "tlc_mc"), workers=workers, timeout=3000)
-            if not info.get("ok"):
-                log(out[-1500:])
-                raise ToolError(f"model checking {c} did not complete cleanly: {info}")
-            states += info["states"]
-            transitions += info["transitions"]
-            mc_detail.append({"cfg": c, **{k: info[k] for k in ("states", "transitions", "depth", "wall_s")}})
-            all_out.append(out)
-            log(f"[mc] {c}: {info['states']} distinct states, {info['transitions']} transitions, depth {info.get('depth')}, {info['wall_s']}s")
-        rp = os.path.join(d, "replays.jsonl")
-        n_rep, n_raw = extract_replays("\n".join(all_out), rp, limit=cfg["replay_limit"], seed=seed)
-        log(f"[gen] {n_raw} behaviours dumped by TLC, {n_rep} kept after prefix pruning / sampling")
-        p = vh(["reader", "replay", "--in", rp, "--jobs", 8, "--out", os.path.join(d, "rep")])
-        rep_stats = json.loads(p.stdout.strip().splitlines()[-1])
-        r = cfg["random"]
-        p = vh(["reader", "random", "--seed", seed, "--runs", r["runs"], "--events", r["events"], "--jobs", 8, "--out", os.path.join(d, "rnd")])
-        rnd_stats = json.loads(p.stdout.strip().splitlines()[-1])
-    else:
-        with open(replay) as f:
-            rj = json.load(f)
-        rp = os.path.join(d, "replays.jsonl")
-        with open(rp, "w") as f:
-            f.write(json.dumps(rj["spec"]) + "\n")
-        p = vh(["reader", "replay", "--in", rp, "--jobs", 1, "--out", os.path.join(d, "rep")])
-        rep_stats = json.loads(p.stdout.strip().splitlines()[-1])
-        rnd_stats = {"runs": 0, "events": 0}
-        n_rep = 1
-    files = sorted(glob.glob(os.path.join(d, "rep", "trace_*.ndjson")) + glob.glob(os.path.join(d, "rnd", "trace_*.ndjson")))
-    results = validate_traces("Trace_RtpsReader.tla", "Trace_RtpsReader.cfg", files, pid, jobs=8)
-    violations = []
-    other_clauses = {}
-    events = 0
-    for res in results:
-        events += res["events"]
-        if res["stuck_line"] is not None:
-            run_no, lines = cut_run(res["file"], res["stuck_line"])
-            path = write_replay(pid, f"replay-stuck-{os.path.basename(res['file'])}.json",
-                                {"property": pid, "why": "no action of the specification explains this event", "line": res["stuck_line"], "trace": lines})
-            violations.append((f"trace line {res['stuck_line']} of {res['file']} is not a behaviour of the spec: {res.get('stuck_raw','')[:300]}", path))
-        for v in res["viols"]:
-            mine = [c for c in v.get("clauses", []) if c.startswith(CLAUSE_PREFIX[pid])]
-            for c in v.get("clauses", []):
-                if not c.startswith(CLAUSE_PREFIX[pid]):
-                    other_clauses[c] = other_clauses.get(c, 0) + 1
-            if mine:
-                run_no, lines = cut_run(res["file"], v["line"])
-                spec = recover_spec(res["file"], run_no)
-                path = write_replay(pid, f"replay-{len(violations)}.json",
-                                    {"property": pid, "clauses": mine, "line_in_run": None, "spec": spec, "trace": lines})
-                violations.append((f"clauses {mine} at event {v['line']} (run {run_no}) of {os.path.basename(res['file'])}", path))
-    runs_total = rep_stats["runs"] + rnd_stats["runs"]
-    sample = None
-    if files:
-        _, sample = cut_run(files[0], 2)
-    coverage = {
-        "states": states, "transitions": transitions,
-        "traces_validated_against_impl": runs_total if not violations else runs_total - len(violations),
-        "samples": [{"trace_of_one_real_run": [json.loads(x) for x in (sample or [])[:14]]}],
-        "model_checking": mc_detail,
-        "tlc_behaviours_replayed_into_impl": rep_stats["runs"],
-        "random_runs": rnd_stats["runs"],
-        "impl_events_validated": events,
-        "exhaustive": True,
-        "clauses_of_other_properties_seen": other_clauses,
-    }
-    assumptions = [
-        "state space bounded by the constants in spec/MC_RtpsReader_*.cfg (see model_checking[].cfg)",
-        "the reader's own limits are not exceeded in the driver (KeepAll, max_samples 1e6)",
-        "reception timestamps of the real TopicCache are strictly increasing (wall clock, >=1us apart)",
-        "the independent wire codec harness/src/wire.rs encodes/decodes RTPS submessages per RTPS 2.5 section 9.4.5",
-    ]
-    if replay is None:
-        write_evidence(pid, tier, seed, "model_checking", coverage, assumptions, time.time() - t0, len(violations))
-    return finish(pid, violations, [])
-
-
+    return run_pipeline(pid, tier, seed, replay, driver="reader", model="RtpsReader.tla",
+                        trace_module="Trace_RtpsReader.tla", trace_cfg="Trace_RtpsReader.cfg",
+                        tiers=TIERS, prefixes=(pid + "_",), assumptions=ASSUME)
